@@ -6,14 +6,23 @@ Correspondence (model = lean/SV/Model/C09.lean):
   filter       curl._filter_headers                                   vs filterHeaders
   generate     curl.generate                                          vs generate       structured random requests
   as_curl      Case.as_curl_command (real Case, real prepare_request) vs generate applied to the real prepared request
+               (headers passed to the call, headers of the sent request passed back, headers set on the session)
+  table        get_excluded_headers() vs excludedTable (dict display + CaseInsensitiveDict over requests' reported
+               defaults); the table of the tree is judged entry by entry by the specification (`tableWithin`)
+  auto-names   curl.generate on every automatically added / hidden header name x explicit and automatic values x
+               generated-by-the-case or not x spellings (exhaustive small family)
   recorder     ScenarioRecorder (record_case / record_response / record_request / record_check_* / find_failure_data)
                driven through the real validate_response of the unit and the stateful executor with scripted checks
                that derive cases and report failures for them       vs run / findFailureData   generated histories
 Specification validation (spec = lean/SV/Spec/C09.lean; a difference is an infrastructure error, exit 2):
   sh-spec      shParse   vs the real /bin/sh on random lines of the fragment and on every printed command
   curl-spec    curlSem   vs the real curl against a loopback recorder (witnesses in quick, random argv in thorough)
+Which header fields "curl / requests add on their own" is NOT read from the code: the harness measures the two real
+clients on every run (`measure_clients`: a request sent by the real transport for a case nobody set a header on; curl
+without -H) and the Lean specification derives its own table from that (`specAuto`, `mayOmit`).
 Replay (the property on the implementation): every command the real code prints is judged by the Lean
-specification `reproduces` against the real prepared request; in the thorough tier the command is also executed
+specification (`reproduces` with the specification's table, and `reproducesOnWire` on everything curl sends, its own
+fields included) against the real prepared request; in the thorough tier the command is also executed
 by the real sh + curl against a loopback recorder and compared with the request `requests` really sent.
 For a recorder history the original is the one the Lean specification selects (`expectedData`: the case and the
 exchange most recently recorded for the id the sample is listed under, at the time of the failure).
@@ -74,7 +83,10 @@ SIG_NUL = "C09:generate:NUL-character-cannot-be-passed-as-a-command-line-argumen
 
 SIG_BOUNDARY = "C09:as_curl_command:multipart-Content-Type-of-the-sent-request-kept-while-the-body-gets-a-new-boundary"
 
-KNOWN_SITE_SIGS = (SIG_EMPTY, SIG_AT, SIG_FILTER, SIG_NUL, SIG_BOUNDARY)
+SIG_NEVER_SHOWN = "C09:get_excluded_headers:header-listed-as-never-shown-is-not-a-transport-artefact"
+SIG_HIDDEN_VALUE = "C09:get_excluded_headers:header-hidden-with-a-value-no-client-adds-on-its-own"
+
+KNOWN_SITE_SIGS = (SIG_EMPTY, SIG_AT, SIG_FILTER, SIG_NUL, SIG_BOUNDARY, SIG_NEVER_SHOWN, SIG_HIDDEN_VALUE)
 SITES = ("emptyHeader", "dataAt", "filter")
 AS_FOUND = {s: "asFound" for s in SITES}
 
@@ -114,9 +126,55 @@ def live_table():
     return [[k, (None if v is None else str(v))] for k, v in curl_mod.get_excluded_headers().items()]
 
 
-def auto_table(tbl):
-    """What curl / requests / schemathesis add on their own: the code's table plus schemathesis' own User-Agent."""
-    return tbl + [["User-Agent", USER_AGENT]]
+class AutoSpec(list):
+    """The specification's request-independent table of automatic fields ([[name, value | None]], for labels and for
+    the generators) together with the measured clients it was derived from (what the Lean specification judges with)."""
+    clients: dict
+
+
+def measure_clients(rec):
+    """What the two clients add on their own, measured on the real clients — never read from the code under test:
+    the header fields of a request the real transport sends for a case nobody set a header on (twice: the field whose
+    value is the test case id is the label), and the fields curl sends without any -H."""
+    schema = build_schema(f"http://127.0.0.1:{rec.port}/api")
+    seen = []
+    for ident in ("1", "2"):
+        case = schema["/items/{id}"]["GET"].Case(path_parameters={"id": ident})
+        rec.take()
+        case.call(timeout=10)
+        wire = rec.take()
+        if len(wire) != 1:
+            raise InfraError(f"measure_clients: the loopback recorder saw {len(wire)} requests for one call")
+        label = [k for k, v in wire[0]["headers"] if v == case.id]
+        if len(label) != 1:
+            raise InfraError(f"measure_clients: no single field carries the test case id: {wire[0]['headers']}")
+        seen.append((label[0], [[k, v] for k, v in wire[0]["headers"] if k.lower() != "host" and k != label[0]]))
+    if seen[0] != seen[1]:
+        raise InfraError(f"measure_clients: the fields of two plain requests differ: {seen}")
+    rec.take()
+    r = _sandbox().run([_sandbox().curl, "-s", "-S", f"http://127.0.0.1:{rec.port}/"])
+    wire = rec.take()
+    if r.returncode != 0 or len(wire) != 1:
+        raise InfraError(f"measure_clients: curl rc={r.returncode} requests={len(wire)} {r.stderr[-200:]!r}")
+    own = {k.lower(): v for k, v in wire[0]["headers"]}
+    if set(own) != {"host", "user-agent", "accept"} or own["accept"] != "*/*" or own["host"] != f"127.0.0.1:{rec.port}":
+        raise InfraError(f"measure_clients: curl without -H sends {wire[0]['headers']}: not what the specification's curlOwn says")
+    return {"curlAgent": own["user-agent"], "requestsOwn": seen[0][1], "caseIdHeader": seen[0][0]}
+
+
+def auto_spec(drv, clients, tbl):
+    """-> the specification's static table (AutoSpec), its verdict on the table of the tree"""
+    verdict = drv.one("tablewithin", {"clients": clients, "tbl": tbl})
+    auto = AutoSpec(verdict["static"])
+    auto.clients = clients
+    return auto, verdict
+
+
+def is_artefact(clients, k, v):
+    """Python mirror of the specification's `isArtefact` (used where the real curl's wire is compared directly)"""
+    low = k.lower()
+    return (low in ("content-length", "transfer-encoding") or low == clients["caseIdHeader"].lower()
+            or any(n.lower() == low and d == v for n, d in clients["requestsOwn"]))
 
 
 # ---------------------------------------------------------------------------------------------------------------
@@ -314,8 +372,11 @@ class _Rec(socketserver.StreamRequestHandler):
         self.server.records.append(record)
         policy = getattr(self.server, "policy", None)
         status = policy(record) if policy else 200
-        reason = {200: b"OK", 401: b"Unauthorized"}[status]
-        self.wfile.write(b"HTTP/1.1 %d %s\r\nContent-Length: 0\r\nConnection: close\r\n\r\n" % (status, reason))
+        status, payload = status if isinstance(status, tuple) else (status, b"")
+        reason = {200: b"OK", 201: b"Created", 401: b"Unauthorized"}[status]
+        ctype = b"Content-Type: application/json\r\n" if payload else b""
+        self.wfile.write(b"HTTP/1.1 %d %s\r\n%sContent-Length: %d\r\nConnection: close\r\n\r\n%s"
+                         % (status, reason, ctype, len(payload), payload))
         self.wfile.flush()
 
 
@@ -384,15 +445,26 @@ def classify(cmd, orig, judged, tbl, auto):
         out.append(("C09:generate:insecure-flag-differs", "--insecure does not mirror verify"))
     sent = [tuple(h) for h in sem["headers"]]
     excluded = lower_names(tbl)
+    entries = {n.lower(): d for n, d in tbl}
+    spec_auto = judged.get("auto") or auto     # the specification's table for this original (Host, Content-Length included)
     for k, v in orig["headers"]:
-        if (k, v) in sent or is_auto(auto, k, v):
+        if (k, v) in sent or is_auto(spec_auto, k, v):
             continue
-        if v == "":
+        if v == "" and any(a.rstrip(" ") == f"{k}:" for a in (judged.get("argv") or [])):
             out.append((SIG_EMPTY, f"header {k!r} with an empty value is printed as -H '{k}: ', which curl discards"))
         elif k.lower() == "content-type" and "boundary=BOUNDARY" in v and any(
                 a.lower() == "content-type" and "boundary=" in b for a, b in sent):
             out.append((SIG_BOUNDARY, f"the command's Content-Type {[b for a, b in sent if a.lower() == 'content-type']} "
                                       "names another boundary than the one its body uses"))
+        elif k.lower() in excluded and k not in orig.get("known", ()) and entries[k.lower()] is None:
+            out.append((f"{SIG_NEVER_SHOWN}:{k.lower()}",
+                        f"header {k}: {v!r} was set explicitly; the excluded-header table lists {k} as never shown, but "
+                        f"it is neither a framing field nor the test-case label and no client adds it with this value: "
+                        f"curl does not send it"))
+        elif k.lower() in excluded and k not in orig.get("known", ()) and entries[k.lower()] == v:
+            out.append((f"{SIG_HIDDEN_VALUE}:{k.lower()}",
+                        f"header {k}: {v!r} is hidden as automatic, but neither requests/the transport nor curl add it "
+                        f"with this value on their own"))
         elif k.lower() in excluded and k not in orig.get("known", ()):
             out.append((SIG_FILTER, f"header {k}: {v!r} was set explicitly but is filtered from the command"))
         elif k.lower() in excluded:
@@ -431,11 +503,36 @@ def rand_text(rng, lo=0, hi=8, pool=TEXT_POOL):
     return "".join(rng.choice(pool) for _ in range(rng.randint(lo, hi)))
 
 
+# names of fields some client adds / computes by itself besides the ones in the two tables, and explicit values for them
+EXTRA_AUTO_NAMES = ["Host", "Content-Type", "Expect", "TE"]
+EXPLICIT_VALUES = {
+    "accept": ["application/json", "text/html;q=0.9"], "accept-encoding": ["identity", "gzip", "br", "gzip, deflate, br"],
+    "connection": ["close", "Keep-Alive"], "user-agent": ["me/1.0", "curl/7.88.1", "python-requests/2.0"],
+    "host": ["example.org", "127.0.0.1:8080", "h"], "content-length": ["0", "3"], "transfer-encoding": ["chunked"],
+    "content-type": ["application/json", "application/x-www-form-urlencoded", "text/plain"], "expect": ["100-continue"],
+    "te": ["trailers"],
+}
+GENERIC_EXPLICIT = ["x", "it's", ""]
+
+
 def gen_table_names(tbl):
     names = []
     for k, _ in tbl:
         names += [k, k.lower(), k.upper()]
     return names
+
+
+def auto_names(tbl, auto):
+    """every name the code hides, the specification exempts, or a client computes by itself (first spelling wins)"""
+    out = {}
+    for k in [k for k, _ in tbl] + [k for k, _ in auto] + EXTRA_AUTO_NAMES:
+        out.setdefault(k.lower(), k)
+    return list(out.values())
+
+
+def explicit_values(name, tbl, auto):
+    vals = [d for n, d in list(tbl) + list(auto) if n.lower() == name.lower() and d is not None]
+    return list(dict.fromkeys(vals + EXPLICIT_VALUES.get(name.lower(), ["abc123"]) + GENERIC_EXPLICIT))
 
 
 def gen_headers(rng, tbl, auto, wf_only=False):
@@ -445,13 +542,15 @@ def gen_headers(rng, tbl, auto, wf_only=False):
         if r < 0.45:
             k = rng.choice(HEADER_NAMES)
         elif r < 0.9 or wf_only:
-            k = rng.choice(gen_table_names(tbl))
+            k = rng.choice(gen_table_names(tbl) + gen_table_names([[n, None] for n in auto_names(tbl, auto)]))
         else:
             k = rng.choice(BAD_HEADER_NAMES)
         r = rng.random()
-        autos = [d for n, d in auto if n.lower() == k.lower() and d is not None]
-        if autos and r < 0.5:
+        autos = [d for n, d in list(auto) + list(tbl) if n.lower() == k.lower() and d is not None]
+        if autos and r < 0.4:
             v = rng.choice(autos)
+        elif k.lower() in EXPLICIT_VALUES and r < 0.7:
+            v = rng.choice(EXPLICIT_VALUES[k.lower()])
         elif r < 0.93 or wf_only:
             v = rng.choice(HEADER_VALUES)
         elif r < 0.97:
@@ -608,12 +707,16 @@ def corr_filter(chk, drv, tbl, auto, variant):
             chk.disagreement("filter", {"headers": hs, "known": known}, m[0], impl)
 
 
+def _wire_orig(orig):
+    return {k: orig[k] for k in ("method", "url", "headers", "body", "verify")}
+
+
 def judge_commands(chk, drv, mechanism, items, tbl, auto, real_sh=True, site=None):
     """items: [(cmd, orig, in_scope, replay_input)] — the specification judges what the implementation printed.
     Returns, aligned with `items`, what the command denotes: curlSem of the argv (specification's shParse, or the real
     sh where the text is outside the specification's fragment); None where no command was printed."""
     all_items, items = items, [it for it in items if it[0] is not None]
-    outs = drv.batch([("judge", {"auto": auto, "orig": it[1], "cmd": it[0]}) for it in items])
+    outs = drv.batch([("judge", {"clients": auto.clients, "orig": _wire_orig(it[1]), "cmd": it[0]}) for it in items])
     # (a request `requests` would have rejected — e.g. a method with shell operators — is never handed to a real shell)
     shs = sh_commands_argv([it[0] if real_sh and (len(it) < 5 or it[4]) else None for it in items])
     outside = [(i, real) for i, (j, real) in enumerate(zip(outs, shs)) if j.get("argv") is None and real is not None]
@@ -642,7 +745,11 @@ def _judge_verdicts(chk, mechanism, items, outs, shs, tbl, auto, real_sh, site=N
             chk.feature(f"{mechanism}:out-of-scope")
             continue
         chk.feature(f"{mechanism}:replayed")
-        if j["ok"]:
+        # two statements of the property: the table form with the specification's own table, and the one on the wire
+        # (everything curl sends, its own fields included); the second presupposes one field per name in the original
+        if j["ok_table"] != j["ok_wire"]:
+            chk.feature(f"{mechanism}:table-form-and-wire-form-differ:unique-names={j['unique']}")
+        if j["ok_table"] and (j["ok_wire"] or not j["unique"]):
             chk.feature(f"{mechanism}:reproduced")
             continue
         downstream = it[5] if len(it) > 5 else None
@@ -652,9 +759,10 @@ def _judge_verdicts(chk, mechanism, items, outs, shs, tbl, auto, real_sh, site=N
                 # the command is not what the real `as_curl_command` prints for the data the model selects for the
                 # reported case: the fault is in the selection upstream of `generate`, whatever the symptom looks like
                 aspect = ("header-lost" if sig in (SIG_EMPTY, SIG_FILTER, SIG_BOUNDARY) or sig.endswith("filtered-out")
+                          or sig.startswith((SIG_NEVER_SHOWN, SIG_HIDDEN_VALUE))
                           else sig.rsplit(":", 1)[1])
                 sig = f"C09:{site}:code-sample-built-from-another-request-than-the-one-of-the-reported-case:{aspect}"
-            elif site and sig.startswith("C09:generate:") and sig not in KNOWN_SITE_SIGS:
+            elif site and sig.startswith("C09:generate:") and not sig.startswith(KNOWN_SITE_SIGS):
                 # the command was printed for a request selected upstream of `generate`: name that site
                 sig = f"C09:{site}:" + sig[len("C09:generate:"):]
             chk.feature(f"{mechanism}:violation:{sig.split(':', 1)[1][:40]}")
@@ -662,9 +770,63 @@ def _judge_verdicts(chk, mechanism, items, outs, shs, tbl, auto, real_sh, site=N
                                       "original": orig, "spec": j})
 
 
-def corr_generate(chk, drv, tbl, auto, variants, n, wf_only=False, mechanism="generate"):
+def corr_table(chk, drv, tbl, auto, verdict):
+    """get_excluded_headers(): the model of its construction against the table of the tree, compared on what a table
+    means for the property (which fields it hides); and the specification's verdict on the table of the tree."""
+    defaults = [[str(k), str(v)] for k, v in requests.utils.default_headers().items()]
+    inp = {"defaults": defaults, "ua": USER_AGENT, "caseIdHeader": SCHEMATHESIS_TEST_CASE_HEADER}
+    model = drv.one("table", inp)
+    chk.case("table", key=[inp, tbl], nontrivial=True, sample={"in": inp, "impl": tbl, "model": model})
+    lm, li = {k.lower(): v for k, v in model}, {k.lower(): v for k, v in tbl}
+    if len(li) != len(tbl):
+        chk.disagreement("table", inp, model, tbl)       # two entries for one lower-cased name: not a CaseInsensitiveDict
+    elif li == lm:
+        chk.feature("table:same-fields-hidden" + ("" if tbl == model else "-spelled-or-ordered-differently"))
+    else:
+        hides_more = sorted(k for k, v in li.items() if not (k in lm and (lm[k] is None or lm[k] == v)))
+        if not hides_more:
+            chk.feature("table:implementation-hides-less-than-the-model")       # shows more fields: the property holds
+        elif verdict["within"]:
+            chk.feature("table:implementation-hides-more-than-the-model-within-the-specification")
+        else:
+            chk.disagreement("table", inp, model, tbl)
+    chk.feature(f"table:within-the-specification={verdict['within']}")
+    # hypotheses of `excluded_only_automatic` (ClientsAgree), a statement about requests and the transport
+    c = auto.clients
+    agree = (all(is_artefact(c, k, v) for k, v in defaults if k.lower() != "user-agent") and is_artefact(c, "User-Agent", USER_AGENT)
+             and all(k == "User-Agent" for k, _ in defaults if k.lower() == "user-agent")
+             and c["caseIdHeader"].lower() == SCHEMATHESIS_TEST_CASE_HEADER.lower())
+    chk.feature(f"table:measured-clients-agree-with-the-inputs-of-get_excluded_headers={agree}")
+    if not agree:
+        chk.notes.append(f"ClientsAgree does not hold on this machine: defaults={defaults} USER_AGENT={USER_AGENT!r} clients={c}")
+    return verdict["outside"]
+
+
+def corr_auto_names(chk, drv, tbl, auto, variants, outside):
+    """curl.generate on requests that carry, next to an ordinary header, one field of a name some client adds by itself
+    (or the code hides): every such name x its spellings x explicit and automatic values x generated by the case or
+    not x without / with data. Exhaustive over that family; the entries of the tree's table that the specification
+    does not accept (`outside`) are part of it by construction."""
+    reqs = []
+    names = auto_names(tbl, auto)
+    for k, _ in outside:
+        if k.lower() not in {n.lower() for n in names}:
+            names.append(k)
+    for name in names:
+        for spelled in dict.fromkeys([name, name.lower(), name.upper()]):
+            for value in explicit_values(name, tbl, auto):
+                for known in ([], [spelled]):
+                    for method, body in (("GET", None), ("POST", "a=b")):
+                        reqs.append({"method": method, "url": "http://127.0.0.1:8080/a?b=c", "verify": True, "body": body,
+                                     "headers": [["X-Keep", "it's"], [spelled, value]], "known": known})
+    chk.feature("auto-names:names", len(names))
+    corr_generate(chk, drv, tbl, auto, variants, 0, mechanism="auto-names", reqs=reqs)
+
+
+def corr_generate(chk, drv, tbl, auto, variants, n, wf_only=False, mechanism="generate", reqs=None):
     rng = chk.rng
-    reqs = [gen_req(rng, tbl, auto, wf_only) for _ in range(n)]
+    if reqs is None:
+        reqs = [gen_req(rng, tbl, auto, wf_only) for _ in range(n)]
     outs = drv.batch([("generate", {"vs": variants, "tbl": tbl, "req": r}) for r in reqs])
     items = []
     for r, m in zip(reqs, outs):
@@ -777,7 +939,11 @@ FORM_BODIES = [{"a": "b c"}, {"a": "it's", "b": "@x"}, {"@k": "v"}, {"a": ["1", 
 MULTIPART_BODIES = [{"a": "1", "b": "x y"}, {"a": "it's"}, {"b": "@x"}, {"a": "l1\nl2"}]
 USER_HEADERS = [None, None, {"X-Key": "42"}, {"Authorization": "Bearer a.b"}, {"Accept": "application/json"},
                 {"User-Agent": "me/1.0"}, {"X-Empty2": ""}, {"accept-encoding": "identity"}, {"Connection": "close"},
-                {"X-A": "it's", "X-B": '"q" $x'}, {"Accept": "*/*"}, {"Cookie": "a=b; c=\"d\""}]
+                {"X-A": "it's", "X-B": '"q" $x'}, {"Accept": "*/*"}, {"Cookie": "a=b; c=\"d\""},
+                # explicit values for the names the clients fill in by themselves
+                {"Accept-Encoding": "identity", "X-Tenant": "blue team"}, {"Accept-Encoding": "gzip"},
+                {"ACCEPT-ENCODING": "br"}, {"Host": "example.org"}, {"User-Agent": "curl/7.88.1"},
+                {"Connection": "Keep-Alive"}, {"connection": "keep-alive"}, {"Accept": "text/html;q=0.9", "Accept-Encoding": ""}]
 
 
 def gen_case(rng, schema, ascii_only=False):
@@ -830,6 +996,13 @@ def rebuild_case(schema, rin):
 
 def command_for(case, user, flow, verify, session):
     """the command the real code prints, and the request it stands for"""
+    if flow == "session":
+        # the headers are set on the session, not passed to the call (`schema.given` / `case.call(session=…)`)
+        own = requests.Session()
+        own.headers.update(user or {})
+        kwargs = REQUESTS_TRANSPORT.serialize_case(case, base_url=case.operation.base_url, headers=None)
+        sent = own.prepare_request(requests.Request(**kwargs))
+        return case.as_curl_command(headers=dict(sent.headers), verify=verify), sent, dict(sent.headers)
     kwargs = REQUESTS_TRANSPORT.serialize_case(case, base_url=case.operation.base_url, headers=user)
     if flow == "recorded":
         sent = session.prepare_request(requests.Request(**kwargs))
@@ -871,7 +1044,7 @@ def corr_as_curl(chk, drv, tbl, auto, variants, n):
         op, kw = gen_case(rng, schema)
         user = rng.choice(USER_HEADERS)
         verify = rng.random() < 0.8
-        flow = "recorded" if rng.random() < 0.5 else "direct"
+        flow = rng.choice(["recorded", "recorded", "direct", "direct", "session"])
         try:
             case = op.Case(**kw)
             cmd, sent, passed = command_for(case, user, flow, verify, session)
@@ -965,7 +1138,10 @@ def validate_sh_spec(chk, drv):
 
 CURL_HEADER_TEXTS = ["X-A: 1", "X-A:1", "X-A:   v", "X-A:\tv", "X-A: ", "X-A:", "X-A;", "X-A; ", "X-A;b", "a;b;", ";", ":x",
                      "NoColon", "X-A: v ", "X-A: a: b", "X-A: a;b", "Accept: text/x", "Accept:", "User-Agent: me", "@nofile",
-                     "@X: v", "X-B: it's", "Content-Type: text/plain", "X-C;x: 1"]
+                     "@X: v", "X-B: it's", "Content-Type: text/plain", "X-C;x: 1",
+                     # texts that address the fields curl sends by itself
+                     "Host: example.org", "user-agent:", "ACCEPT: a", "Accept;", "Content-Type;", "Content-Type:",
+                     "User-Agent;x", "accept: */*", "User-Agent: curl/0", "Accept-Encoding: identity"]
 CURL_DATA = ["x", "@nofile-c09", "a=b", "it's", "", "@", "a@b", " ", "é"]
 
 
@@ -990,11 +1166,9 @@ def gen_curl_argv(rng, port):
     return argv
 
 
-CURL_OWN = {"host", "user-agent", "accept", "content-length", "content-type", "expect"}
-
-
-def compare_wire_with_sem(sem, recs, rc, argv):
-    """does what the real curl did agree with curlSem's verdict? -> None | reason"""
+def compare_wire_with_sem(sem, wire, recs, rc, argv):
+    """does what the real curl did agree with the specification (curlSem's verdict; curlWire: every header field curl
+    sends, its own ones included)? -> None | reason"""
     kind = sem["kind"]
     if kind == "unsupported":
         return None
@@ -1014,16 +1188,21 @@ def compare_wire_with_sem(sem, recs, rc, argv):
         return f"target {r['target']}"
     if r["body"] != (sem["body"] or "").encode("utf-8"):
         return f"body {r['body']!r}"
-    want = [(k.lower(), v.strip(" \t")) for k, v in sem["headers"]]
-    got = [(k.lower(), v) for k, v in r["headers"]]
-    wanted_names = {k for k, _ in want}
-    custom = [(k, v) for k, v in got if k not in CURL_OWN or k in wanted_names]
-    if custom != [(k, v.encode("utf-8").decode("latin-1")) for k, v in want]:
-        return f"headers {custom} != {want}"
+    want = sorted((k.lower(), v.strip(" \t").encode("utf-8").decode("latin-1")) for k, v in wire)
+    got = sorted((k.lower(), v) for k, v in r["headers"])
+    if want != got:
+        return f"header fields on the wire {got} != specification {want}"
+    # the custom ones also in their order (a custom `Host` is sent in the place of curl's own, ahead of the others)
+    custom = [(k.lower(), v.strip(" \t").encode("utf-8").decode("latin-1")) for k, v in sem["headers"] if k.lower() != "host"]
+    rest = [(k.lower(), v) for k, v in r["headers"]]
+    for h in custom:
+        if h not in rest:
+            return f"custom header {h} not sent"
+        rest = rest[rest.index(h) + 1:]
     return None
 
 
-def validate_curl_spec(chk, drv, rec, n):
+def validate_curl_spec(chk, drv, rec, n, clients):
     rng = chk.rng
     argvs = []
     for _ in range(n):
@@ -1034,14 +1213,18 @@ def validate_curl_spec(chk, drv, rec, n):
     argvs = [["curl", "-X", "GET", "-H", "X-Empty: ", "-H", "X-A: 1", base], ["curl", "-X", "GET", "-H", "X-Empty;", base],
              ["curl", "-X", "POST", "-d", "@nofile-c09", base], ["curl", "-X", "POST", "--data-raw", "@nofile-c09", base],
              ["curl", "-X", "GET", base + "?a[0]=1"], ["curl", "-g", "-X", "GET", base + "?a[0]=1"]] + argvs
-    sems = drv.batch([("curlsem", {"argvs": argvs})])[0]
-    for argv, sem in zip(argvs, sems):
+    argvs += [["curl", "-X", "PUT", "-H", "Accept:", "-H", "content-type: text/plain", "-d", "é it's", base],
+              ["curl", "-H", "Host: example.org", "-H", "User-Agent: me/1.0", base], ["curl", "-d", "", base],
+              ["curl", "-X", "GET", "-H", "Accept-Encoding: identity", "-H", "Connection: close", base]]
+    outs = drv.batch([("curlwire", {"clients": clients, "argvs": argvs})])[0]
+    for argv, out in zip(argvs, outs):
+        sem = out["sem"]
         rec.take()
         r = _sandbox().run([_sandbox().curl, "-s", "-S", *argv[1:]])
         recs = rec.take()
         chk.case("curl-spec", key=argv, nontrivial=sem["kind"] != "unsupported", sample={"argv": argv, "spec": sem})
         chk.feature(f"curl-spec:{sem['kind']}")
-        why = compare_wire_with_sem(sem, recs, r.returncode, argv)
+        why = compare_wire_with_sem(sem, out["wire"], recs, r.returncode, argv)
         if why:
             raise InfraError(f"specification curlSem differs from the real curl on {argv}: spec={sem} curl: {why} "
                              f"records={recs} stderr={r.stderr[-300:]!r}")
@@ -1051,7 +1234,8 @@ def validate_curl_spec(chk, drv, rec, n):
 
 
 def wire_headers(rec, auto):
-    return [(k, v) for k, v in rec["headers"] if not is_auto(auto, k, v) and k.lower() != "host"]
+    """the fields of a request as received that are no transport artefacts (`Host` included: curl must send the same)"""
+    return [(k, v) for k, v in rec["headers"] if not is_artefact(auto.clients, k, v)]
 
 
 def canon_wire(rec):
@@ -1086,7 +1270,10 @@ def wire_problems(orig_wire, got, r, tbl, auto, case_headers, site="loopback"):
     for k, v in wire_headers(orig_wire, auto):
         if (k.lower(), v) in ghs:
             continue
-        if v == "":
+        if k.lower() in excluded and k not in case_headers and {n.lower(): d for n, d in tbl}[k.lower()] is None:
+            # (framing fields and the label never get here: they are artefacts)
+            problems.append((f"{SIG_NEVER_SHOWN}:{k.lower()}", f"header {k}: {v!r} is not re-sent"))
+        elif v == "":
             problems.append((SIG_EMPTY, f"header {k!r} (empty value) is not re-sent"))
         elif k.lower() == "content-type" and "boundary=BOUNDARY" in v:
             problems.append((SIG_BOUNDARY, f"Content-Type re-sent as {[b for a, b in ghs if a == 'content-type']}, "
@@ -1659,6 +1846,11 @@ def derived_probe(ctx, response, case):
     raise Failure(operation=case.operation.label, title="Probe", message=f"probe of {case.operation.label}", case_id=derived.id)
 
 
+ENGINE_EXPLICIT = [{"Accept-Encoding": "identity"}, {"Accept-Encoding": "gzip"}, {"User-Agent": "me/1.0"},
+                   {"Accept": "application/json"}, {"Connection": "close"}, {"accept-encoding": "identity", "Accept": "text/plain"},
+                   {"Accept": "*/*"}, {"User-Agent": "curl/7.88.1"}]
+
+
 def gen_engine_setup(rng):
     kind, scheme = rng.choice(SECURITY)
     enum = lambda vals: {"type": "string", "enum": vals}  # noqa: E731
@@ -1676,11 +1868,29 @@ def gen_engine_setup(rng):
             op["requestBody"] = {"required": True, "content": {rng.choice(["application/json", "text/plain"]): {
                 "schema": enum(rng.sample(["@etc", "it's", "a b", '{"k": "$x"}', "l1\nl2", "x"], 3))}}}
         ops[path] = {method: op}
+    # a third of the setups also have a pair of linked operations and run the stateful phase (a real state machine:
+    # there the configured headers are not merged into the case, they only travel in the transport kwargs)
+    stateful = rng.random() < 0.35
+    if stateful:
+        ops["/things"] = {"post": {
+            "operationId": "createThing", "security": [{"Sec": []}],
+            "requestBody": {"required": True, "content": {"application/json": {"schema": enum(rng.sample(["it's", "a b", "@x", "$y"], 2))}}},
+            "responses": {"201": {"description": "Created", "links": {"get": {"operationId": "getThing",
+                                                                             "parameters": {"id": "$response.body#/id"}}},
+                                  "content": {"application/json": {"schema": {"type": "object", "required": ["id"],
+                                                                               "properties": {"id": {"type": "integer"}}}}}}}}}
+        ops["/things/{id}"] = {"get": {
+            "operationId": "getThing", "security": [{"Sec": []}],
+            "parameters": [{"name": "id", "in": "path", "required": True, "schema": {"type": "integer"}}],
+            "responses": {"200": {"description": "OK"}}}}
     raw = {"openapi": "3.0.2", "info": {"title": "t", "version": "1"},
            "components": {"securitySchemes": {"Sec": scheme}}, "paths": ops}
     net = {"headers": {}, "auth": None, "tls_verify": rng.random() < 0.7}
     if rng.random() < 0.7:
         net["headers"]["X-Tenant"] = rng.choice(["acme", "it's acme", "a $b"])
+    if rng.random() < 0.6:
+        # an explicit value for a field the clients would otherwise fill in by themselves (`-H 'Accept-Encoding: identity'`)
+        net["headers"].update(rng.choice(ENGINE_EXPLICIT))
     cred = rng.random()
     if kind == "apiKey-header" and cred < 0.75:
         net["headers"][scheme["name"]] = rng.choice(["valid-key", "k'ey $x", 'se"cret'])
@@ -1690,7 +1900,9 @@ def gen_engine_setup(rng):
         net["auth"] = ("user", rng.choice(["pw", "p w's"]))
     policy = rng.choice(["open", "open", "missing-only", "strict"])
     return {"security": kind, "raw": raw, "network": net, "policy": policy, "probe": rng.random() < 0.5,
-            "phases": rng.choice([["fuzzing"], ["coverage", "fuzzing"], ["examples", "fuzzing"]]),
+            "always_fail": stateful or rng.random() < 0.3,
+            "phases": (rng.choice([["stateful"], ["fuzzing", "stateful"]]) if stateful
+                       else rng.choice([["fuzzing"], ["coverage", "fuzzing"], ["examples", "fuzzing"]])),
             "max_examples": rng.choice([2, 3, 4]), "seed": rng.randint(1, 9999), "scheme": scheme}
 
 
@@ -1712,6 +1924,12 @@ def _policy(setup):
         return None
 
     def policy(record):
+        status = decide(record)
+        if status == 200 and record["method"] == "POST" and record["target"].split("?")[0].endswith("/things"):
+            return 201, b'{"id": 7}'
+        return status
+
+    def decide(record):
         c = credential(record)
         if setup["policy"] == "open":
             return 200
@@ -1733,12 +1951,15 @@ def run_engine_setup(setup, rec):
     schema.output_config.sanitize = False
     rec.srv.policy = _policy(setup)
     rec.take()
-    phases = {"fuzzing": PhaseName.FUZZING, "coverage": PhaseName.COVERAGE, "examples": PhaseName.EXAMPLES}
+    phases = {"fuzzing": PhaseName.FUZZING, "coverage": PhaseName.COVERAGE, "examples": PhaseName.EXAMPLES,
+              "stateful": PhaseName.STATEFUL_TESTING}
+    checks = [ignored_auth] + ([derived_probe] if setup["probe"] else []) + ([_always_fails] if setup.get("always_fail") else [])
     net = setup["network"]
     config = EngineConfig(
         execution=ExecutionConfig(
-            phases=[phases[p] for p in setup["phases"]], checks=[ignored_auth] + ([derived_probe] if setup["probe"] else []),
+            phases=[phases[p] for p in setup["phases"]], checks=checks,
             hypothesis_settings=hypothesis.settings(max_examples=setup["max_examples"], deadline=None, database=None,
+                                                    stateful_step_count=3,
                                                     suppress_health_check=list(hypothesis.HealthCheck)),
             seed=setup["seed"], continue_on_failure=True),
         network=NetworkConfig(headers=dict(net["headers"]), auth=tuple(net["auth"]) if net["auth"] else None,
@@ -1784,6 +2005,9 @@ def engine_runs(chk, drv, rec, tbl, auto, n, with_curl):
                  sample={"setup": rin_setup, "samples": [s[:4] for s in samples[:3]], "errors": errors[:2]})
         chk.feature(f"engine:security={setup['security']}")
         chk.feature(f"engine:policy={setup['policy']}")
+        chk.feature(f"engine:phases={'+'.join(setup['phases'])}")
+        chk.feature("engine:explicit-value-for-an-automatic-field=" +
+                    str(any(k.lower() in ("accept", "accept-encoding", "user-agent", "connection") for k in setup["network"]["headers"])))
         chk.feature(f"engine:code-samples={min(len(samples), 5)}")
         if errors:
             chk.feature("engine:run-with-engine-errors")
@@ -1804,7 +2028,8 @@ def engine_runs(chk, drv, rec, tbl, auto, n, with_curl):
             wire = recs[0]
             text, is_text = text_of(wire["body"] or None)
             # (trailing blanks of a value are kept as sent: the specification's curl keeps them too)
-            headers = [[k, v] for k, v in wire["headers_as_sent"] if k.lower() != "host"]
+            # (`Host` stays in: the specification knows which `Host` curl derives from the URL)
+            headers = [[k, v] for k, v in wire["headers_as_sent"]]
             orig = {"method": wire["method"], "url": f"http://127.0.0.1:{rec.port}" + wire["target"], "body": text,
                     "headers": headers, "verify": setup["network"]["tls_verify"], "known": known}
             scope = is_text and all(v.isascii() for _, v in headers)
@@ -1852,14 +2077,19 @@ def detect_variants(chk, drv, tbl):
 
 
 def _run(chk):
+    with Recorder() as rec:
+        _run_with(chk, rec)
+
+
+def _run_with(chk, rec):
     drv = LineDriver(chk.prop)
     tbl = live_table()
-    auto = auto_table(tbl)
-    if not {"accept", "user-agent", "content-length"} <= lower_names(tbl):
-        raise InfraError(f"unexpected excluded-header table {tbl}")
     if not all(k.isascii() for k, _ in tbl):
         raise InfraError("table name outside ASCII: the model's lower() is ASCII-only")
+    clients = measure_clients(rec)
+    auto, table_verdict = auto_spec(drv, clients, tbl)
     chk.notes.append(f"excluded-header table read from the tree: {tbl}")
+    chk.notes.append(f"clients as measured (the specification's source of 'added on their own'): {clients}")
     variants = detect_variants(chk, drv, tbl)
     chk.variants.update(variants)
 
@@ -1882,6 +2112,16 @@ def _run(chk):
         "sample_with_foreign_header_fails + parent_request_witness: a command carrying a non-automatic header of another "
         "request (the parent's credentials) never reproduces the failing request",
         "indented_command_reads_the_same, report_line_reproduces: the indented line of the report reads as the same command",
+        "spec_table_is_may_omit: the specification's table of automatic fields (from the measured clients and the "
+        "original) says exactly: curl sends the same field by itself, or it is a transport artefact",
+        "excluded_only_automatic: the table get_excluded_headers() builds (dict display + CaseInsensitiveDict over any "
+        "defaults requests reports) hides only such fields; table_within_spec_sound: so does every table that passes the "
+        "decidable test applied to the table of the tree",
+        "reproduces_repaired_clients / reproduces_repaired_within / reproduces_on_wire_repaired: the full statement "
+        "against the independent specification, in table form and on everything curl sends (curl_sends_for_command, "
+        "table_verdict_is_wire_verdict)",
+        "overbroad_table_lost + never_shown_entry_witness: a table that hides a non-automatic field (a name listed as never "
+        "shown that is no framing field / label, e.g. Accept-Encoding) loses every explicit value of it",
     ]
     chk.partial += [
         "requests.Request.prepare (URL quoting, header validation, body encoding) is an input of the model, not modelled: "
@@ -1912,8 +2152,11 @@ def _run(chk):
         "names), urllib3's URL normalisation (brackets/braces percent-encoded outside an IPv6 host), HTTP methods are tokens",
         "the shell is a POSIX sh without history/brace expansion acting on single-quoted text; curl behaves as 7.88.1 for "
         "-X -H -d --data-raw -k -g",
-        "'headers curl/requests add on their own' = a header whose name is in get_excluded_headers() and whose value is "
-        "the automatic one (any value for Content-Length, Transfer-Encoding, X-Schemathesis-TestCaseId)",
+        "'headers curl/requests add on their own' is measured, not read from the code: the fields of a request the real "
+        "transport sends for a case nobody set a header on (the field carrying the test case id is the label), the fields "
+        "curl sends without -H (checked against the specification's curlOwn: Host of the URL, User-Agent, Accept: */*, with "
+        "data Content-Length and Content-Type: application/x-www-form-urlencoded; no Expect below 1 MB); Content-Length / "
+        "Transfer-Encoding with any value count as framing of the body, which the property compares itself",
     ]
     chk.trusted += ["POSIX sh quoting rules and curl(1) option semantics as written in lean/SV/Spec/C09.lean "
                     "(validated against /bin/sh and curl on every run)"]
@@ -1925,9 +2168,11 @@ def _run(chk):
     judge_commands(chk, drv, "witness", items, tbl, auto)
 
     # 2. correspondence
+    outside = corr_table(chk, drv, tbl, auto, table_verdict)
     corr_quote(chk, drv)
     corr_utf8(chk, drv)
     corr_filter(chk, drv, tbl, auto, variants["filter"])
+    corr_auto_names(chk, drv, tbl, auto, variants, outside)
     corr_generate(chk, drv, tbl, auto, variants, chk.budget(2500, 25000))
     corr_generate(chk, drv, tbl, auto, variants, chk.budget(1500, 15000), wf_only=True, mechanism="generate-wf")
     corr_as_curl(chk, drv, tbl, auto, variants, chk.budget(1500, 12000))
@@ -1935,13 +2180,12 @@ def _run(chk):
 
     # 3. the specifications against the real sh / curl
     validate_sh_spec(chk, drv)
-    with Recorder() as rec:
-        validate_curl_spec(chk, drv, rec, chk.budget(40, 1500))
-        if chk.thorough:
-            loopback_replay(chk, drv, rec, tbl, auto, 2000)
-        else:
-            loopback_replay(chk, drv, rec, tbl, auto, 40)
-        engine_runs(chk, drv, rec, tbl, auto, chk.budget(8, 80), with_curl=True)
+    validate_curl_spec(chk, drv, rec, chk.budget(40, 1500), clients)
+    if chk.thorough:
+        loopback_replay(chk, drv, rec, tbl, auto, 2000)
+    else:
+        loopback_replay(chk, drv, rec, tbl, auto, 40)
+    engine_runs(chk, drv, rec, tbl, auto, chk.budget(8, 80), with_curl=True)
     chk.exhaustive = False
     chk.notes.append(f"quote: all strings over {QUOTE_ALPHABET!r} up to length {5 if chk.thorough else 4}")
 
@@ -1949,7 +2193,11 @@ def _run(chk):
 def _replay(chk, data):
     drv = LineDriver(chk.prop)
     tbl = live_table()
-    auto = auto_table(tbl)
+    with Recorder() as rec:
+        clients = measure_clients(rec)
+    auto, verdict = auto_spec(drv, clients, tbl)
+    print("clients as measured:", clients)
+    print("table of the tree:", tbl, "-> entries outside the specification:", verdict["outside"])
     rp = data["replay"]
     print(data.get("signature"), "—", data.get("what"))
     if rp.get("kind") == "quote":
@@ -1968,7 +2216,7 @@ def _replay(chk, data):
             return _replay_plan(chk, drv, tbl, auto, inp, rp)
         if isinstance(inp, dict) and "case" in inp:
             schema = build_schema("http://127.0.0.1:1/api")
-            flow = "recorded" if inp["flow"] in ("recorded", "loopback") else "direct"
+            flow = "recorded" if inp["flow"] in ("recorded", "loopback") else inp["flow"]
             case = rebuild_case(schema, inp)
             cmd, _, passed = command_for(case, inp["user_headers"], flow, inp["verify"], requests.Session())
             from schemathesis.transport.prepare import prepare_request
@@ -1976,6 +2224,9 @@ def _replay(chk, data):
             print("impl now :", canon_boundary(cmd))
             print("model now:", canon_boundary(drv.one("generate", {"vs": detect_variants(chk, drv, tbl), "tbl": tbl,
                                                                     "req": req})["cmd"]))
+        elif isinstance(inp, dict) and "defaults" in inp:
+            print("impl now :", tbl)
+            print("model now:", drv.one("table", inp))
         elif isinstance(inp, dict) and "url" in inp:
             print("impl now :", impl_generate(inp))
             print("model now:", drv.one("generate", {"vs": detect_variants(chk, drv, tbl), "tbl": tbl, "req": inp})["cmd"])
@@ -1998,7 +2249,7 @@ def _replay(chk, data):
         cmd = impl_generate(inp)
     elif "case" in inp:
         schema = build_schema("http://127.0.0.1:1/api")
-        flow = "recorded" if inp["flow"] in ("recorded", "loopback") else "direct"
+        flow = "recorded" if inp["flow"] in ("recorded", "loopback") else inp["flow"]
         cmd, sent, _ = command_for(rebuild_case(schema, inp), inp["user_headers"], flow, inp["verify"], requests.Session())
         if inp["flow"] == "loopback":
             print("(recorded against a loopback server; rebuilt here without network, port 1)")
@@ -2010,8 +2261,13 @@ def _replay(chk, data):
     if cmd is not None and rp.get("original") is not None:
         print("impl now:", cmd)
         print("real sh :", sh_command_argv(cmd))
-        print("spec    :", drv.one("judge", {"auto": auto, "orig": rp["original"], "cmd": cmd}))
+        print("spec    :", _judge_one(drv, auto, rp["original"], cmd))
     return 0
+
+
+def _judge_one(drv, auto, orig, cmd):
+    j = drv.one("judge", {"clients": auto.clients, "orig": _wire_orig(orig), "cmd": cmd})
+    return {k: j[k] for k in ("ok", "ok_table", "ok_wire", "sem", "wire")}
 
 
 def _replay_plan(chk, drv, tbl, auto, inp, rp):
@@ -2043,7 +2299,7 @@ def _replay_plan(chk, drv, tbl, auto, inp, rp):
             d, sent = sel["data"]["ok"], sel["sent"]
             orig = {"method": sent["method"], "url": sent["uri"], "body": sent["body"], "headers": d["headers"], "verify": d["verify"]}
             print("  real sh      :", sh_command_argv(cmd))
-            print("  spec verdict :", drv.one("judge", {"auto": auto, "orig": orig, "cmd": cmd}))
+            print("  spec verdict :", _judge_one(drv, auto, orig, cmd))
     return 0
 
 
@@ -2063,11 +2319,11 @@ def _replay_engine(chk, drv, tbl, auto, inp, rp):
                 continue
             for wire in recs:
                 text, _ = text_of(wire["body"] or None)
-                headers = [[k, v] for k, v in wire["headers_as_sent"] if k.lower() != "host"]
+                headers = [[k, v] for k, v in wire["headers_as_sent"]]
                 orig = {"method": wire["method"], "url": f"http://127.0.0.1:{rec.port}" + wire["target"], "body": text,
                         "headers": headers, "verify": setup["network"]["tls_verify"]}
                 print("  the server received:", orig)
-                print("  spec verdict:", drv.one("judge", {"auto": auto, "orig": orig, "cmd": cmd})["ok"])
+                print("  spec verdict:", _judge_one(drv, auto, orig, cmd)["ok"])
     return 0
 
 
